@@ -352,7 +352,7 @@ PROPS["C08"]["level_text"] = PROPS["C08"]["level_text"].replace("the loops run i
 PROPS["C08"]["runners"] = [{"name": "C08", "synctest": True}, {"name": "SYNC08", "synctest": True}]
 PROPS["C08"]["modules"] = ["C08Check", "SyncCheck"]
 PROPS["C05"]["theorems"].append("c05_seq_exclusive")
-PROPS["C10"]["theorems"] += ["c10_wait_for_acyclic", "c10_write_holder_waits_for_nothing"]
+PROPS["C10"]["theorems"] += ["c10_wait_for_acyclic", "c10_write_holder_waits_for_nothing", "c10_peek_packet_armed", "c10_peek_packet_buffered", "c10_discard_armed", "c10_read_all_armed"]
 
 # tie (b): kernel-checked agreement of the model's constants with /repo's sources,
 # attached to the properties whose theorems depend on those values
